@@ -40,6 +40,14 @@ Theorem C11_apply_always_loadable : forall crc cmd_ok, (forall bs, crc bs < 256 
   load crc cmd_ok (j_file (fold_left (japply crc) cmds j_init)) = inl (applied_entries cmds).
 Proof. exact apply_always_loadable. Qed.
 
+(* ... and with RESTARTS in between (FileState::init on the journal written so far: the entry count and the last index are taken
+   from the loaded entries): any sequence of applies, failed appends and restarts leaves a loadable journal holding exactly the
+   successfully applied entries numbered 0,1,2,... - a restart changes nothing *)
+Theorem C11_apply_restart_always_loadable : forall crc cmd_ok, (forall bs, crc bs < 256 ^ 4) ->
+  forall ops, Forall (good cmd_ok) (applied_entries (applied_of ops)) ->
+  load crc cmd_ok (j_file (fold_left (jstep crc cmd_ok) ops j_init)) = inl (applied_entries (applied_of ops)).
+Proof. exact apply_reopen_always_loadable. Qed.
+
 (* single-byte corruption: a file differing from a valid journal in exactly one byte is rejected unless a checksum collision
    with an original entry is exhibited - the altered entry has different content but the same checksum *)
 Definition C11_byte_full : Prop := forall crc cmd_ok, (forall bs, crc bs < 256 ^ 4) ->
@@ -63,3 +71,4 @@ Print Assumptions C11_truncated.
 Print Assumptions C11_injective.
 Print Assumptions C11_apply_always_loadable.
 Print Assumptions C11_single_byte.
+Print Assumptions C11_apply_restart_always_loadable.
